@@ -9,13 +9,14 @@ VERIF = os.path.dirname(os.path.dirname(os.path.abspath(__file__)))
 # property -> (clauses decided, technique, design ref)
 CLAIMS = {
     'C01': ('error atomicity of the core write functions (no Err exit after a store mutation), no half-created tree branches, '
-            'entry-count bookkeeping, delete prunes, request key -> core read mapping', 'path-effect analysis over resolved HIR + fallibility fixpoint + who-may-write', '4/C01'),
+            'entry-count bookkeeping, delete prunes, request key -> core read mapping, import stores every entry, delete removes one entry', 'path-effect analysis over resolved HIR + fallibility fixpoint + who-may-write', '4/C01'),
     'C02': ('decision table of Store::insert over (current, new, force, version relation), reported version table, single-owner '
-            'type shape of the core, one request = one core call, unchecked version arithmetic, client retry-loop provenance',
+            'type shape of the core, one request = one core call (operands in order), unchecked version arithmetic, client retry-loop provenance, '
+            'core hands value / version / force to the store unchanged, the client examines the server verdict',
             'decision-table extraction from match/if + type-shape lint + MIR overflow-assert lookup', '4/C02'),
     'C03': ('notify after every mutation, notify flags, unique filter table, event kind mapping, snapshot into the registered '
             'sender before return, unsubscribe/disconnect reach the subscriber registry, Ack before forwarder, aggregator conflict '
-            'flush (truth table), every registration recorded in the table unsubscribe works from',
+            'flush (truth table), every registration recorded in the table unsubscribe works from, subscribe operands (live_only default)',
             'path-effect analysis + provenance + match tables', '4/C03'),
     'C04': ('every matcher has an arm per wildcard kind, pget/pdelete traversals agree per segment kind, zero-level # agreement '
             'between store and subscriber matcher, up-front rejection of non-trailing #, segment classification, removal discipline of the '
@@ -24,40 +25,42 @@ CLAIMS = {
             'data tree and ls-subscriber tree walked in lockstep',
             'path-effect analysis + sibling check store/core', '4/C05'),
     'C06': ('who writes Lock.holder / candidates, grant tables of Store::lock/unlock, confirmation only to the holder, session end '
-            'releases and dequeues, lock tree stays clean, shape of Lock::queue, core propagates the store verdict', 'who-may-write over MIR field writes + decision tables + path effects', '4/C06'),
+            'releases and dequeues, lock tree stays clean, shape of Lock::queue, core propagates the store verdict, releasing one key touches no other lock', 'who-may-write over MIR field writes + decision tables + path effects', '4/C06'),
     'C07': ('disconnected is reached on every path after connected in every front end, order of the clean-up steps inside '
-            'Worterbuch::disconnected, identity and force operands of grave goods / last will, registrations recorded in the clean-up tables', 'path-effect + ordered-trace analysis + provenance', '4/C07'),
+            'Worterbuch::disconnected, identity and force operands of grave goods / last will, registrations recorded in the clean-up tables, the Disconnected request reaches the clean-up', 'path-effect + ordered-trace analysis + provenance', '4/C07'),
     'C08': ('guard coverage of every client-reachable mutator, the guard decision table, pattern awareness of the guard, '
             'internal client id not forgeable', 'dominance of guard calls + decision table + provenance', '4/C08'),
     'C09': ('shape lint of persisted types, writer/reader envelope agreement, $SYS stripped on export, load chain order and '
-            'checksum validation, registrations applied on load (every entry, no early exit), both files rewritten per flush', 'serde shape lint + ordered-trace analysis', '4/C09'),
+            'checksum validation, registrations applied on load (every entry, no early exit), both files rewritten per flush, exported '
+            'registration lists are complete, $SYS stripped by exact segment', 'serde shape lint + ordered-trace analysis', '4/C09'),
     'C10': ('commit point (slot selector) last, loading does not write, atomic replace order, one snapshot per flush, periodic and '
-            'shutdown flush agree, write_and_check always rewrites data + checksum and reads nothing back', 'ordered-trace analysis + who-may-call with constant operand', '4/C10'),
+            'shutdown flush agree, write_and_check always rewrites data + checksum and reads nothing back, a flipped selector is followed by a write attempt', 'ordered-trace analysis + who-may-call with constant operand', '4/C10'),
     'C11': ('mirror table completeness and fidelity, forward on every path, join without await gap, state-sync fully consumed, '
-            'follower refuses writes, registration forwarding', 'match tables + provenance + writer/reader field agreement', '4/C11'),
+            'follower refuses writes, registration forwarding, every follower gets every command, import / join mirrored in full', 'match tables + provenance + writer/reader field agreement', '4/C11'),
     'C12': ('state-sync consumption, roles imply persistence (def-use order), follower persists, restore before serving, '
             'orchestrator role flags', 'ordered-trace analysis + provenance', '4/C12'),
     'C13': ('exactly one terminal message on every Ok path of the 20 handlers, answer kind table, transaction-id provenance, '
-            'no `?` on core results, total dispatch, error-code table, Ack before forwarder',
+            'no `?` on core results, total dispatch, error-code table, Ack before forwarder, Proto delegation and session continuation, the core '
+            'answers every request exactly once, a waiting acquire does not block the session',
             'path-effect analysis over resolved HIR + match tables + provenance', '4/C13'),
-    'C14': ('serde shape lint over the message closure, resolved serde_json features, single-line writers',
+    'C14': ('serde shape lint over the message closure, resolved serde_json features, single-line writers, partial-write accumulation, a failed line write ends the stream',
             'serde shape lint (syn) + cargo metadata + who-may-call', '4/C14'),
     'C15': ('every request kind checked with the right privilege and pattern before its handler, check_auth/authorize tables, '
             'containment step table of pattern_matches, token validation calls, REST handlers authorize',
             'guard dominance + match tables + decision table', '4/C15'),
-    'C16': ('flush before conflicting insert, FIFO buffers, timer-flag typestate, snapshot unbatched',
+    'C16': ('flush before conflicting insert, FIFO buffers, timer-flag typestate, snapshot unbatched, timers are never cancelled',
             'guard structure + who-may-write + type-shape', '4/C16'),
     'C17': ('inventory of panic-capable sites reachable from client input over the message-hop call graph, request errors do not '
             'leave the core loops, decode errors end only the session, one task per connection; the invariants behind reviewed assertions '
             '(tree cleanliness, $SYS guard indices) are evaluated, not assumed',
             'call-graph reachability with message hops + reviewed panic-site table', '4/C17'),
     'C18': ('every accepted change queued in order, batch writer keeps order, begin_write/commit pairing, load order, '
-            'writer/reader version agreement', 'path-effect analysis + match tables', '4/C18'),
+            'writer/reader version agreement, an unappliable registration does not abort the load, the change that opens a batch is written, session end clears pending registrations', 'path-effect analysis + match tables', '4/C18'),
     'C19': ('Leader outcome guarded by votes >= quorum, who writes the vote counter and under which guards, quorum arithmetic, '
             'Follower only from a heartbeat request of a configured peer, role/outcome mapping',
             'guard dominance + who-may-write + decision table + provenance', '4/C19'),
     'C20': ('command table (sync/async siblings build the same-named message), callback kind vs answer kind, delivery table, fresh '
-            'ids, send-buffer field pairing, unsubscribe drops local routing', 'match tables + sibling agreement + field pairing', '4/C20'),
+            'ids, send-buffer field pairing, unsubscribe drops local routing, the server verdict reaches the caller, the receive branch is cancel safe', 'match tables + sibling agreement + field pairing', '4/C20'),
 }
 
 
